@@ -12,6 +12,9 @@ import ElvProofs.C15.Basic
 import ElvProofs.C15.Sem
 import ElvProofs.C15.Compound
 import ElvProofs.C15.Scope
+import ElvProofs.C15.SoundStep
+import ElvProofs.C15.Fuel
+import ElvProofs.C15.TermStep
 set_option linter.unusedSimpArgs false
 open C15
 
@@ -96,6 +99,80 @@ theorem C15_outcome_unique (cfg : Cfg) (n m : Nat) (p : Chunk) (o₁ o₂ : List
     rw [this] at h₂; cases h₂; exact ⟨rfl, rfl⟩
   · have := C15_program_fuel_independent cfg p o₂ e₂ h₂ h
     rw [this] at h₁; cases h₁; exact ⟨rfl, rfl⟩
+
+/-- Fuel stability, sharpened: an evaluation that finishes with SOME fuel has a
+least sufficient fuel `n₀` — with less it is out of fuel, with `n₀` or more the
+result is always the one obtained with `n₀`. -/
+theorem C15_least_fuel (cfg : Cfg) (c : Call) (s : St) (h : ∃ n, run cfg n c s ≠ .oof) :
+    ∃ n₀, run cfg n₀ c s ≠ .oof ∧ (∀ m, m < n₀ → run cfg m c s = .oof) ∧
+      (∀ m, n₀ ≤ m → run cfg m c s = run cfg n₀ c s) :=
+  run_least_fuel cfg c s h
+
+/-- Fuel accounting for loops: fuel bounds the NESTING depth of evaluation and
+each iteration is nested in the previous one, so a `for` loop costs one level
+per element on top of what one run of its body needs — if (under a loop
+invariant `I`) a run of the body finishes with fuel `b`, the loop over `items`
+finishes with fuel `b + |items| + 1`. -/
+theorem C15_for_fuel_accounting (cfg : Cfg) (a : Nat) (body : Chunk) (els : Option Chunk) (I : St → Prop)
+    (b : Nat)
+    (hbody : ∀ v s, I s →
+      match loopReact (run cfg b (.body body [] s.scope false) { s with heap := s.heap.set a v }) with
+      | .next s' => I s'
+      | .oof => False
+      | _ => True)
+    (hels : ∀ c s, els = some c → I s → run cfg b (.body c [] s.scope false) s ≠ .oof)
+    (items : List Value) (it : Bool) (s : St) (hI : I s) :
+    run cfg (b + items.length + 1) (.forLoop a items body els it) s ≠ .oof :=
+  forLoop_fuel cfg a body els I b hbody hels items it s hI
+
+/-- Fuel sufficiency for a syntactic class.  `tChunk p`: no `while`; no function
+values (no lambda, no `fn`; command heads are literal names other than `each` /
+`keep-if`, and no declared name ends in `~`, so every command is a builtin);
+`for` only over a literal list of string literals.  `cSz p` is a size of the
+AST (every node counts at most 4, a `for` additionally the number of its
+items).  Such a program never runs out of fuel when given more than `cSz p`:
+it finishes, or leaves the modelled fragment.  (Outside the class no bound in
+the size of the program exists — see the two programs below and notes/C15.md.) -/
+theorem C15_fuel_sufficient (cfg : Cfg) (p : Chunk) (n : Nat) (hp : tChunk p = true) (hn : cSz p < n) :
+    runProgram cfg n p ≠ .oof := by
+  have h := program_total cfg p hp n hn
+  unfold runProgram
+  cases hr : run cfg n (.pipes p.pipes) initSt with
+  | ok a s => simp
+  | exc e s => simp
+  | oof => rw [hr] at h; exact h.elim
+  | unsupported w => simp
+
+namespace C15.Ex
+/-- `var f = { }; set f = { $f }; $f` — no `while`, no `fn`, no syntactic recursion: diverges -/
+def knot : List Form :=
+  [vvar "f" (lam []), vset "f" (lam [.cmd (.var "f") [] [] []]), .cmd (.var "f") [] [] []]
+/-- `var l = [a a]`, three times `set l = [$@l $@l]`, `for x $l { }`: 16 iterations from 6 commands
+(`k` doublings: 2^(k+1) iterations, one level of fuel each) -/
+def doubling : List Form :=
+  [vvar "l" (.list [.lit "a", .lit "a"])] ++
+  List.replicate 3 (vset "l" (.list [.explode "l", .explode "l"])) ++
+  [.forF "x" (.var "l") (ch []) none, put [.lit "done"]]
+end C15.Ex
+
+-- non-vacuity: a program of the class (for / if / break / captures) and its size; programs outside the class
+example : tChunk (Ex.ch Ex.forBreak) = true := by rfl
+example : cSz (Ex.ch Ex.forBreak) = 50 := by rfl
+example : Ex.text {} Ex.forBreak = "ok|'a' 'done'" := by rfl
+example : tChunk (Ex.ch Ex.closureSeesAssignment) = false := by rfl
+example : tChunk (Ex.ch Ex.knot) = false := by rfl
+example : (runProgram {} 100 (Ex.ch Ex.knot)).text = "FUEL" := by decide +kernel
+example : tChunk (Ex.ch Ex.doubling) = false := by rfl
+example : (runProgram {} 24 (Ex.ch Ex.doubling)).text = "FUEL" := by decide +kernel
+example : (runProgram {} 25 (Ex.ch Ex.doubling)).text = "ok|'done'" := by decide +kernel
+
+-- non-vacuity: a terminating evaluation; a loop over three items with an empty body (b = 2)
+example : ∃ n, run {} n (.pipes (Ex.ch Ex.closureSeesAssignment).pipes) initSt ≠ .oof :=
+  ⟨60, Res.ne_oof_of_finished (by rfl)⟩
+example : run {} (2 + 3 + 1) (.forLoop 0 [.nil, .nil, .nil] (.mk []) none false) initSt ≠ .oof :=
+  C15_for_fuel_accounting {} 0 (.mk []) none (fun _ => True) 2
+    (by intro v s _; rw [body_eq, Chunk.pipes, pipes_nil_eq]; trivial)
+    (by intro c s h; cases h) [.nil, .nil, .nil] false initSt trivial
 
 -- non-vacuity: a program that finishes with fuel 60 and one that does not with fuel 3
 example : Ex.text {} Ex.closureSeesAssignment = "ok|'new'" := by rfl
@@ -281,21 +358,79 @@ example : Ex.text {} Ex.shadowing = "ok|'new' 'old'" := by rfl
 
 /-! ### Static scope soundness -/
 
-/-- Full statement: a program the resolver accepts never reaches "variable
-not found" at run time.  NOT proved in general (it needs a well-formedness
-invariant over all closures reachable from the heap, preserved by every
-construct); it is checked on every generated program by the correspondence
-(elvish never raises this exception at run time, so a reference run that did
-would be a disagreement). -/
+/-- A program the resolver accepts never reaches "variable not found" at run
+time (language.md "Scoping rule": "Elvish resolves all variables in a code
+chunk before starting to execute any of it"). -/
 def C15_scope_sound_full : Prop :=
   ∀ (cfg : Cfg) (n : Nat) (p : Chunk) (outs : List Value) (e : Exc),
     accepts p = true → runProgram cfg n p = .done outs (some e) → e.kind ≠ "variable-not-found"
 
-/-- Proved part: wherever the dynamic scope chain has the names the resolver
-assumed (`sscopeOf s.scope = sc`), a variable use the resolver accepted finds
-its variable; and declaring / deleting a variable keeps the two in agreement
-(so the hypothesis is maintained along a function body). -/
-theorem C15_scope_sound_partial (cfg : Cfg) (n : Nat) (x : String) (sc : SScope) (s : St)
+/-- Proof: an invariant preserved by every request of the big-step evaluator
+(`Pre`/`Post` in `ElvProofs/C15/Spec.lean`, `step_sound`, `run_sound`):
+the dynamic scope chain has, frame by frame, exactly the names of the
+resolver's static scope (`Agree`); every value in a variable, on a port, saved
+by `tmp`, passed as argument or in flight is well-formed (`VWf`: each function
+value has a default for every option and its body resolves against the names
+of the scope chain it closes over; no exception value is of class
+"variable-not-found", so `fail $e` cannot re-raise one); after a command the
+scope chain is the one the resolver computed (`rForm … = some sc'`), and where
+declarations are not allowed it is unchanged, also when an exception is thrown. -/
+theorem C15_scope_sound : C15_scope_sound_full := by
+  intro cfg n p outs e hacc hrun
+  have h := program_sound cfg n p hacc
+  unfold runProgram at hrun
+  cases hr : run cfg n (.pipes p.pipes) initSt with
+  | ok a s => rw [hr] at hrun; cases hrun
+  | exc e' s =>
+    rw [hr] at hrun h
+    cases hrun
+    exact h.2.1.1
+  | oof => rw [hr] at hrun; cases hrun
+  | unsupported w => rw [hr] at hrun; cases hrun
+
+/-- The invariant also gives: the final state of an accepted program holds only
+well-formed values and, when the program finishes normally, its scope chain is
+the one the resolver computed for the end of the program. -/
+theorem C15_scope_invariant_at_exit (cfg : Cfg) (n : Nat) (p : Chunk) (sc' : SScope) (vs : List Value)
+    (s : St) (hacc : rPipes initSScope true p.pipes = some sc')
+    (hrun : run cfg n (.pipes p.pipes) initSt = .ok vs s) : StWf s ∧ Agree s.scope sc' := by
+  have h := program_sound cfg n p (by unfold accepts; rw [hacc]; rfl)
+  rw [hrun] at h
+  exact ⟨h.1, h.2.2.2 vs rfl sc' hacc⟩
+
+namespace C15.Ex
+/-- `var x = a; fn f {|&o=$x| put $o $x }; var x = b; f; f &o=c; del x; fail $x` is rejected;
+without the last command it is accepted and runs. -/
+def scopeProg : List Form :=
+  [vvar "x" (.lit "a"),
+   .fnF "f" (.lambda [] none [] ["o"] [.var "x"] (ch [put [.var "o", .var "x"]])),
+   vvar "x" (.lit "b"),
+   .cmd (.lit "f") [] [] [],
+   .cmd (.lit "f") [] ["o"] [.lit "c"],
+   .del [.mk "x" false []]]
+/-- an accepted program that ends with another exception -/
+def scopeProgFail : List Form := scopeProg ++ [.cmd (.lit "fail") [.lit "boom"] [] []]
+/-- not an AST of any source text: option `o` without default value; such a
+function would not bind `o` when called (the resolver rejects it) -/
+def optionWithoutDefault : List Form :=
+  [.cmd (.lambda [] none [] ["o"] [] (ch [put [.var "o"]])) [] [] []]
+end C15.Ex
+
+-- non-vacuity: accepted programs that run (one to the end, one into an exception of another class);
+-- ill-scoped programs are rejected; the option/default check of the resolver is needed
+example : accepts (Ex.ch Ex.scopeProg) = true := by rfl
+example : Ex.text {} Ex.scopeProg = "ok|'a' 'a' 'c' 'a'" := by rfl
+example : accepts (Ex.ch Ex.scopeProgFail) = true := by rfl
+example : Ex.text {} Ex.scopeProgFail = "?(fail 'boom')|'a' 'a' 'c' 'a'" := by rfl
+example : accepts (Ex.ch (Ex.scopeProg ++ [Ex.put [.var "x"]])) = false := by rfl
+example : accepts (Ex.ch Ex.optionWithoutDefault) = false := by rfl
+example : Ex.text {} Ex.optionWithoutDefault = "?(variable-not-found)|" := by rfl
+
+/-- Local form of the agreement used by the invariant: wherever the dynamic
+scope chain has the names the resolver assumed (`sscopeOf s.scope = sc`), a
+variable use the resolver accepted finds its variable; and declaring /
+deleting a variable keeps the two in agreement. -/
+theorem C15_scope_agreement_local (cfg : Cfg) (n : Nat) (x : String) (sc : SScope) (s : St)
     (hs : sscopeOf s.scope = sc) (hr : rExpr sc (.var x) = true) :
     (∀ e s', run cfg (n + 1) (.expr (.var x)) s = .exc e s' → False) ∧
     (∀ (f : Frame) (rest : Scope) (y : String) (a : Nat),
